@@ -1,0 +1,22 @@
+//go:build verif
+// +build verif
+
+// Machine-checked contracts for package base (comment-only; read by
+// /verif/govc, see /verif/DESIGN.md §3).  This file declares nothing.
+
+package base
+
+// tonumber(s, base) (manual §6.1): the string is a numeral in that base only if
+// every character after the optional sign is an alphanumeric digit smaller than
+// the base ('a'/'A' = 10 ... 'z'/'Z' = 35).  Proved: an integer is only ever
+// pushed when all bytes are such digits.
+//@ macro digitVal(b) = ite('0' <= b && b <= '9', int64(b) - '0', ite('a' <= b && b <= 'z', int64(b) - 'a' + 10, ite('A' <= b && b <= 'Z', int64(b) - 'A' + 10, 99)))
+//@ macro goFuncPre(t, c) = (t != nil && c != nil && 0 <= c.nArgs && c.nArgs <= len(c.args))
+//@ func tonumber
+//@   prop C02
+//@   arith int
+//@   requires goFuncPre(t, c)
+//@   modifies everything()
+//@   exits any
+//@   loop 1: invariant 2 <= base && base <= 36 && -1 <= rangeindex && rangeindex < len(digits) && forall(j, 0, rangeindex+1, digitVal(digits[j]) < base)
+//@   assert_before_call Push1 inscope: nargs != 1 && typeis(arg2.iface, int64) ==> forall(j, 0, len(digits), digitVal(digits[j]) < base)
